@@ -3,7 +3,7 @@
 # writes its in-band failure reply (config body with size 0, NO payload: 24 bytes) but Frontend::get_config keeps waiting for
 # 24 + size bytes: the call does not return while the connection is alive. exit 0 = finding reproduced.
 set -u
-WT=/tmp/wt/demo_c; git -C /repo worktree remove --force $WT 2>/dev/null; git -C /repo worktree add -q --detach $WT HEAD || exit 2
+WT=/tmp/wt/demo_c; git -C /repo worktree remove --force $WT 2>/dev/null; git -C /repo worktree add -q --detach $WT ${DEMO_REF:-HEAD} || exit 2
 cd $WT && python3 - <<'PY'
 p='vhost/src/vhost_user/mod.rs'
 s=open(p).read()
